@@ -203,3 +203,325 @@ Theorem C09c_let_dynamic s L d u r s' :
 Proof. exact (let_dynamic s L d u r s' sifting_ok'_holds). Qed.
 Print Assumptions C09c_let_dynamic.
 
+(** ** 2. With an empty oracle tape ([tape s = []], the literal code: Python
+    iterates its own sets; the driver resets the tape after every call) the
+    decorated call RETURNS [Ok] with the postcondition, and the tape stays
+    empty.  The wrapped operations never consume the tape ([nt], a syntactic
+    pass: only [swap] and sifting read it). *)
+Theorem C09c_nt_def {A} (m : MS A) :
+  nt m ↔ ∀ s r s', tape s = [] → m s = (r, s') → tape s' = [] ∧ r ≠ Err EOracle.
+Proof. exact (conj (fun H => H) (fun H => H)). Qed.
+
+Theorem C09c_decorator_correct_notape {A} (func : MS A) Pre Post s L r s' :
+  op_spec func (heldn L) Pre Post → nt func →
+  Inv s → Counts s L → Pre s → rctx s = false → tape s = [] →
+  try_to_reorder func s = (r, s') →
+  ∃ a, r = Ok a ∧ Inv s' ∧ Counts s' L ∧ rctx s' = false ∧ tape s' = [] ∧
+       (last_len s = None → last_len s' = None) ∧
+       (is_Some (last_len s) → is_Some (last_len s')) ∧
+       keeps (heldn L) s s' ∧ Post s a s'.
+Proof. exact (try_to_reorder_correct_notape func Pre Post s L r s'). Qed.
+Print Assumptions C09c_decorator_correct_notape.
+
+Theorem C09c_ite_notape s L g u v r s' :
+  Inv s → Counts s L → rctx s = false → tape s = [] →
+  valid s g → valid s u → valid s v →
+  heldn L (absn g) → heldn L (absn u) → heldn L (absn v) →
+  ite g u v s = (r, s') →
+  (∃ w, r = Ok w ∧ Inv s' ∧ Counts s' L ∧ rctx s' = false ∧
+        (last_len s = None → last_len s' = None) ∧
+        (is_Some (last_len s) → is_Some (last_len s')) ∧
+        keeps (heldn L) s s' ∧ valid s' w ∧
+        ∀ ρ, denv s' w ρ = if denv s g ρ then denv s u ρ else denv s v ρ) ∧
+  tape s' = [].
+Proof. exact (fun HI HC Hc Ht => ite_notape s L HI HC Hc Ht g u v r s'). Qed.
+Print Assumptions C09c_ite_notape.
+
+Theorem C09c_var_notape s L name r s' :
+  Inv s → Counts s L → rctx s = false → tape s = [] →
+  is_Some (vars s !! name) →
+  var name s = (r, s') →
+  (∃ w, r = Ok w ∧ Inv s' ∧ Counts s' L ∧ rctx s' = false ∧
+        (last_len s = None → last_len s' = None) ∧
+        (is_Some (last_len s) → is_Some (last_len s')) ∧
+        keeps (heldn L) s s' ∧ valid s' w ∧ ∀ ρ, denv s' w ρ = ρ name) ∧
+  tape s' = [].
+Proof. exact (fun HI HC Hc Ht => var_notape s L HI HC Hc Ht name r s'). Qed.
+Print Assumptions C09c_var_notape.
+
+Theorem C09c_apply_notape s L op u v w r s' f :
+  Inv s → Counts s L → rctx s = false → tape s = [] →
+  op ∈ py_vocab → conn_sem op = Some f →
+  valid s u → ovalid s v → ovalid s w → arity_ok op v w = true →
+  heldn L (absn u) → oref L v → oref L w →
+  apply op u v w s = (r, s') →
+  (∃ x, r = Ok x ∧ Inv s' ∧ Counts s' L ∧ rctx s' = false ∧
+        (last_len s = None → last_len s' = None) ∧
+        (is_Some (last_len s) → is_Some (last_len s')) ∧
+        keeps (heldn L) s s' ∧ valid s' x ∧
+        ∀ ρ, denv s' x ρ = f (denv s u ρ) (odenv s v ρ) (odenv s w ρ)) ∧
+  tape s' = [].
+Proof. exact (fun HI HC Hc Ht => apply_notape s L HI HC Hc Ht op u v w r s' f). Qed.
+Print Assumptions C09c_apply_notape.
+
+Theorem C09c_apply_quant_notape s L op fa u v r s' :
+  Inv s → Counts s L → rctx s = false → tape s = [] →
+  (fa = true ∧ op ∈ ["\A"; "forall"]) ∨ (fa = false ∧ op ∈ ["\E"; "exists"]) →
+  valid s u → valid s v → heldn L (absn v) →
+  apply op u (Some v) None s = (r, s') →
+  (∃ x Q, r = Ok x ∧ Inv s' ∧ Counts s' L ∧ rctx s' = false ∧
+        (last_len s = None → last_len s' = None) ∧
+        (is_Some (last_len s) → is_Some (last_len s')) ∧
+        keeps (heldn L) s s' ∧ valid s' x ∧
+        (∀ y, y ∈ Q ↔ ∃ l, vars s !! y = Some l ∧ depends s u l) ∧
+        ∀ ρ, denv s' x ρ = true ↔ qsemv s fa Q v ρ) ∧
+  tape s' = [].
+Proof. exact (fun HI HC Hc Ht => apply_quant_notape s L HI HC Hc Ht op fa u v r s'). Qed.
+Print Assumptions C09c_apply_quant_notape.
+
+Theorem C09c_quantify_notape s L u qvars fa r s' :
+  Inv s → Counts s L → rctx s = false → tape s = [] →
+  valid s u → heldn L (absn u) →
+  Forall (fun k => is_Some (vars s !! k)) qvars →
+  quantify u true qvars fa s = (r, s') →
+  (∃ x, r = Ok x ∧ Inv s' ∧ Counts s' L ∧ rctx s' = false ∧
+        (last_len s = None → last_len s' = None) ∧
+        (is_Some (last_len s) → is_Some (last_len s')) ∧
+        keeps (heldn L) s s' ∧ valid s' x ∧
+        ∀ ρ, denv s' x ρ = true ↔ qsemv s fa (list_to_set qvars) u ρ) ∧
+  tape s' = [].
+Proof. exact (fun HI HC Hc Ht => quantify_notape s L HI HC Hc Ht u qvars fa r s'). Qed.
+Print Assumptions C09c_quantify_notape.
+
+Theorem C09c_cofactor_notape s L u values r s' :
+  Inv s → Counts s L → rctx s = false → tape s = [] →
+  valid s u → heldn L (absn u) →
+  Forall (fun p => is_Some (vars s !! p.1)) values →
+  cofactor u true values s = (r, s') →
+  (∃ x, r = Ok x ∧ Inv s' ∧ Counts s' L ∧ rctx s' = false ∧
+        (last_len s = None → last_len s' = None) ∧
+        (is_Some (last_len s) → is_Some (last_len s')) ∧
+        keeps (heldn L) s s' ∧ valid s' x ∧
+        ∀ ρ, denv s' x ρ = denv s u (overridev (list_to_map (reverse values)) ρ)) ∧
+  tape s' = [].
+Proof. exact (fun HI HC Hc Ht => cofactor_notape s L HI HC Hc Ht u values r s'). Qed.
+Print Assumptions C09c_cofactor_notape.
+
+Theorem C09c_compose_notape s L f var_sub r s' :
+  Inv s → Counts s L → rctx s = false → tape s = [] →
+  valid s f → heldn L (absn f) →
+  Forall (fun p => is_Some (vars s !! p.1) ∧ valid s p.2 ∧ heldn L (absn p.2)) var_sub →
+  compose f var_sub s = (r, s') →
+  (∃ x, r = Ok x ∧ Inv s' ∧ Counts s' L ∧ rctx s' = false ∧
+        (last_len s = None → last_len s' = None) ∧
+        (is_Some (last_len s) → is_Some (last_len s')) ∧
+        keeps (heldn L) s s' ∧ valid s' x ∧
+        ∀ ρ, denv s' x ρ = denv s f (vsubstv s (list_to_map (reverse var_sub)) ρ)) ∧
+  tape s' = [].
+Proof. exact (fun HI HC Hc Ht => compose_notape s L HI HC Hc Ht f var_sub r s'). Qed.
+Print Assumptions C09c_compose_notape.
+
+Theorem C09c_rename_notape s L u dvars r s' :
+  Inv s → Counts s L → rctx s = false → tape s = [] →
+  valid s u → heldn L (absn u) →
+  (∀ x y, (x, y) ∈ dvars → is_Some (vars s !! y)) →
+  rename u dvars s = (r, s') →
+  (∃ x, r = Ok x ∧ Inv s' ∧ Counts s' L ∧ rctx s' = false ∧
+        (last_len s = None → last_len s' = None) ∧
+        (is_Some (last_len s) → is_Some (last_len s')) ∧
+        keeps (heldn L) s s' ∧ valid s' x ∧
+        ∀ ρ, denv s' x ρ = denv s u (renv (list_to_map (reverse dvars)) ρ)) ∧
+  tape s' = [].
+Proof. exact (fun HI HC Hc Ht => rename_notape s L HI HC Hc Ht u dvars r s'). Qed.
+Print Assumptions C09c_rename_notape.
+
+Theorem C09c_cube_notape s L dvars r s' :
+  Inv s → Counts s L → rctx s = false → tape s = [] →
+  Forall (fun p => is_Some (vars s !! p.1)) dvars →
+  cube dvars s = (r, s') →
+  (∃ x, r = Ok x ∧ Inv s' ∧ Counts s' L ∧ rctx s' = false ∧
+        (last_len s = None → last_len s' = None) ∧
+        (is_Some (last_len s) → is_Some (last_len s')) ∧
+        keeps (heldn L) s s' ∧ valid s' x ∧
+        ∀ ρ, denv s' x ρ = true ↔ ∀ v b, (v, b) ∈ dvars → ρ v = b) ∧
+  tape s' = [].
+Proof. exact (fun HI HC Hc Ht => cube_notape s L HI HC Hc Ht dvars r s'). Qed.
+Print Assumptions C09c_cube_notape.
+
+Theorem C09c_let_notape s L d u r s' :
+  Inv s → Counts s L → rctx s = false → tape s = [] →
+  valid s u → heldn L (absn u) → let_ok L s d →
+  let_ d u s = (r, s') →
+  (∃ x, r = Ok x ∧ Inv s' ∧ Counts s' L ∧ rctx s' = false ∧
+        (last_len s = None → last_len s' = None) ∧
+        (is_Some (last_len s) → is_Some (last_len s')) ∧
+        keeps (heldn L) s s' ∧ valid s' x ∧
+        ∀ ρ, denv s' x ρ = denv s u (let_sem s d ρ)) ∧
+  tape s' = [].
+Proof. exact (fun HI HC Hc Ht => let_notape s L HI HC Hc Ht d u r s'). Qed.
+Print Assumptions C09c_let_notape.
+
+(** ** 3. Histories of dd.bdd with dynamic reordering ENABLED.
+
+    [GoodD]: well formed, at nesting depth 0, empty tape, reference counts
+    exact for SOME ledger; no condition on [last_len] (reordering on or off)
+    nor on the forced trigger [trig] (model-only: it makes the request fire
+    at the k-th node creation).
+
+    The theorems hold for ARBITRARY arguments and every outcome: for the
+    invariants no operand needs to be held (an operand that is not held may
+    be freed by the reordering and the call may then fail with [KeyError],
+    [C09_unheld_operand_refuted] -- but the manager stays well formed); the
+    only caller obligations are those of [Properties/C17.v]: [decref] only on
+    a node the caller holds, and no new variable beyond the next free
+    level.  What a SUCCESSFUL call returns is given, for held operands, by
+    the theorems of parts 1 and 2. *)
+Theorem C09c_GoodD_def s :
+  GoodD s ↔ Inv s ∧ rctx s = false ∧ tape s = [] ∧ ∃ L, Counts s L.
+Proof. exact (conj (fun H => H) (fun H => H)). Qed.
+
+Theorem C09c_keepsR_def L s s' :
+  keepsR L s s' ↔
+  ∀ u, u ≠ 0%Z → heldn L (absn u) → valid s u →
+       valid s' u ∧ ∀ ρ, denv s' u ρ = denv s u ρ.
+Proof. exact (conj (fun H => H) (fun H => H)). Qed.
+
+Theorem C09c_allowedD_def o :
+  allowedD o =
+  match o with
+  | ONew levels => bool_decide (NoDup (levels.*1) ∧ NoDup (levels.*2))
+  | OAddVar _ _ | ODeclare _ | OVar _ | OIte _ _ _ | OApply _ _ _ _
+  | OIncref _ | ODecref _ | ORef _ | OGc _
+  | OCofactor _ _ _ | OQuantify _ _ _ _ | OCompose _ _ | ORename _ _
+  | OLet _ _ | OCube _ | OSupport _ | OIsEssential _ _
+  | OConfigure _ | OSetLastLen _ | OSetTrig _ => true
+  | _ => false
+  end.
+Proof. exact eq_refl. Qed.
+
+Theorem C09c_caller_ok_def s o :
+  caller_ok s o ↔
+  match o with
+  | OAddVar v (Some l) => vars s !! v = None → l ≤ nvars s
+  | ODecref u => valid s u → indeg (succ s) (absn u) < default 0 (refc s !! absn u)
+  | _ => True
+  end.
+Proof. exact (conj (fun H => H) (fun H => H)). Qed.
+
+(** the decorator for ARBITRARY arguments and any outcome, for a wrapped
+    operation that never raises the signal with requests off ([nrf]), never
+    reads the tape ([nt]) and is safe inside a context ([csafe]) *)
+Theorem C09c_csafe_def {A} (m : MS A) :
+  csafe m ↔ ∀ s r s', Inv s → no_reorder s → m s = (r, s') →
+    Inv s' ∧ extends s s' ∧ frame s s' ∧ ∀ L, Counts s L → Counts s' L.
+Proof. exact (conj (fun H => H) (fun H => H)). Qed.
+
+Theorem C09c_decorator_total {A} (func : MS A) s L r s' :
+  nrf func → nt func → csafe func →
+  Inv s → Counts s L → rctx s = false → tape s = [] →
+  try_to_reorder func s = (r, s') →
+  Inv s' ∧ Counts s' L ∧ rctx s' = false ∧ tape s' = [] ∧
+  (last_len s = None → last_len s' = None) ∧
+  (is_Some (last_len s) → is_Some (last_len s')) ∧
+  keeps (heldn L) s s' ∧
+  r ≠ Err ENeedsReordering ∧ r ≠ Err EOracle.
+Proof. exact (fun Hn Ht Hc => try_to_reorder_total func Hn Ht Hc s L r s'). Qed.
+Print Assumptions C09c_decorator_total.
+
+(** one call: any allowed operation, any arguments, any outcome *)
+Theorem C09c_run_op_good w o s r s' :
+  GoodD s → allowedD o = true → is_new o = false → caller_ok s o →
+  run_op w o s = (r, s') →
+  GoodD s' ∧ r ≠ Err ENeedsReordering ∧ r ≠ Err EOracle ∧
+  ∀ L, Counts s L → keepsR L s s'.
+Proof. exact (run_opD_good w o s r s'). Qed.
+Print Assumptions C09c_run_op_good.
+
+(** one step of the driver (which resets the tape), the constructor included *)
+Theorem C09c_step_good w m o :
+  allowedD o = true →
+  (is_new o = false → GoodD (world_get w m) ∧ caller_ok (world_get w m) o) →
+  GoodD (world_get (step w m o).1 m) ∧
+  (step w m o).2 ≠ Err ENeedsReordering ∧ (step w m o).2 ≠ Err EOracle ∧
+  (is_new o = false →
+   ∀ L, Counts (world_get w m) L → keepsR L (world_get w m) (world_get (step w m o).1 m)).
+Proof. exact (step_goodD w m o). Qed.
+Print Assumptions C09c_step_good.
+
+(** histories *)
+Theorem C09c_hist_okD_def w m ops :
+  hist_okD w m ops =
+  match ops with
+  | [] => True
+  | o :: ops =>
+      allowedD o = true ∧ is_new o = false ∧ caller_ok (world_get w m) o ∧
+      hist_okD (fst (step w m o)) m ops
+  end.
+Proof. exact (match ops with [] => eq_refl | _ :: _ => eq_refl end). Qed.
+Theorem C09c_outs_def w m ops :
+  outs w m ops =
+  match ops with
+  | [] => []
+  | o :: ops => snd (step w m o) :: outs (fst (step w m o)) m ops
+  end.
+Proof. exact (match ops with [] => eq_refl | _ :: _ => eq_refl end). Qed.
+
+Theorem C09c_run_good ops w m :
+  GoodD (world_get w m) → hist_okD w m ops →
+  GoodD (world_get (Total.run w m ops) m) ∧
+  Forall (fun r => r ≠ Err ENeedsReordering ∧ r ≠ Err EOracle) (outs w m ops).
+Proof. exact (run_goodD ops w m). Qed.
+Print Assumptions C09c_run_good.
+
+Theorem C09c_run_good_from_new levels ops m :
+  allowedD (ONew levels) = true →
+  hist_okD (fst (step world_empty m (ONew levels))) m ops →
+  GoodD (world_get (Total.run world_empty m (ONew levels :: ops)) m) ∧
+  Forall (fun r => r ≠ Err ENeedsReordering ∧ r ≠ Err EOracle)
+         (outs world_empty m (ONew levels :: ops)).
+Proof. exact (run_goodD_from_new levels ops m). Qed.
+Print Assumptions C09c_run_good_from_new.
+
+(** ** Non-vacuity: a history in which dynamic reordering is switched on, the
+    forced trigger fires inside [apply] and later inside [quantify],
+    references are released and collected, and reordering is switched off
+    again, satisfies the hypotheses; by running the model both triggers were
+    consumed, the order changed, and every call returned normally. *)
+Theorem C09c_histD_ops_def :
+  histD_ops =
+  [OVar 0; OIncref 2; OVar 1; OIncref 3; OVar 2; OIncref 4; OVar 3; OIncref 5;
+   OApply "and" 2 (Some 4%Z) None; OIncref 6;
+   OApply "and" 3 (Some 5%Z) None; OIncref 7;
+   OApply "or" 6 (Some 7%Z) None; OIncref 10;
+   OConfigure (Some true);
+   OSetTrig (Some 1); OApply "and" 10 (Some 3%Z) None; OIncref 11;
+   ODecref 10; OGc None;
+   OSetTrig (Some 2); OQuantify 11 true [1] false;
+   OConfigure (Some false); OCube [(0, true); (3, false)]].
+Proof. exact eq_refl. Qed.
+
+Example C09c_hist_ok :
+  hist_okD (fst (step world_empty 0 (ONew [(0, 0); (1, 1); (2, 2); (3, 3)]))) 0 histD_ops.
+Proof. exact histD_ok. Qed.
+
+Example C09c_hist_example :
+  let w := Total.run world_empty 0 (ONew [(0, 0); (1, 1); (2, 2); (3, 3)] :: histD_ops) in
+  GoodD (world_get w 0) ∧
+  Forall (fun r => r ≠ Err ENeedsReordering ∧ r ≠ Err EOracle)
+         (outs world_empty 0 (ONew [(0, 0); (1, 1); (2, 2); (3, 3)] :: histD_ops)).
+Proof. exact histD_example. Qed.
+Print Assumptions C09c_hist_example.
+
+Example C09c_hist_trace :
+  let ops := ONew [(0, 0); (1, 1); (2, 2); (3, 3)] :: histD_ops in
+  let w17 := Total.run world_empty 0 (take 18 ops) in
+  let w22 := Total.run world_empty 0 (take 23 ops) in
+  let w := Total.run world_empty 0 ops in
+  trig (world_get w17 0) = None ∧ last_len (world_get w17 0) = Some 18 ∧
+  vars (world_get w17 0) !! 2 = Some 0 ∧
+  trig (world_get w22 0) = None ∧
+  bool_decide (is_Some (last_len (world_get w22 0))) = true ∧
+  last_len (world_get w 0) = None ∧
+  forallb (fun r => match r with Ok _ => true | Err _ => false end)
+          (outs world_empty 0 ops) = true.
+Proof. exact histD_trace. Qed.
